@@ -47,6 +47,19 @@ def str_const(s: str):
     return _str_consts[s]
 
 
+def str_const_value(z):
+    """The Python literal behind a string-constant term (None for a symbolic string)."""
+    if _USE_Z3_STRINGS:
+        try:
+            return z.as_string() if z3.is_string_value(z) else None
+        except Exception:  # noqa: BLE001
+            return None
+    for k, v in _str_consts.items():
+        if v.eq(z):
+            return k
+    return None
+
+
 def str_distinct_axioms():
     if _USE_Z3_STRINGS or len(_str_consts) < 2:
         return []
